@@ -86,10 +86,13 @@ def num(e, cx, want=None):
         return f"(-{b})", t
     if isinstance(e, ast.BinOp):
         if isinstance(e.op, ast.Pow):
-            if not (isinstance(e.right, ast.Constant) and isinstance(e.right.value, int) and e.right.value >= 0):
-                raise Unsupported(f"non-literal exponent at {where(e, cx.fname)}")
             b, t = num(e.left, cx, want)
-            return f"({b} ^ {e.right.value})", t
+            if isinstance(e.right, ast.Constant) and isinstance(e.right.value, int) and e.right.value >= 0:
+                return f"({b} ^ {e.right.value})", t
+            ex, tex = num(e.right, cx, "Nat")
+            if tex != "Nat":
+                raise Unsupported(f"exponent is not a natural number at {where(e, cx.fname)}")
+            return f"({b} ^ {ex})", t
         # literal operands take the type of the other side
         if is_lit(e.left) and not is_lit(e.right):
             r, tr = num(e.right, cx, want)
@@ -474,6 +477,92 @@ def units(srcdir):
         return compile_fn(fn, "curve.py", "linesInter (pta0 pta1 ptb0 ptb1 : Pt) : Option (Rat × Rat)", env, "OptPair")
     out.append(("linesInter", lines))
     return out
+
+
+# ------------------------------------------------------------------ the quadrature loop of IntegratePlanar.vertical (list pipeline)
+def vertical_unit(srcdir):
+    """`IntegratePlanar.vertical`: a pipeline of tuple comprehensions over the quadrature nodes, closed by `np.inner(weights, values)`.
+    Calls into pynurbs / the curve object are mapped to the model (`curve(nodes)` ↦ map evalSeg, `curve.derivate()` ↦ derivSeg,
+    `open_newton_cotes(n)` ↦ openWeights n — pynurbs is modelled, see DESIGN §9); everything else is translated."""
+    import os
+    curve = ast.parse(open(os.path.join(srcdir, "curve.py")).read())
+    fn = find_func(find_class(curve, "IntegratePlanar"), "vertical")
+    if fn is None:
+        raise Unsupported("IntegratePlanar.vertical not found")
+    fname = "curve.py"
+    body = [s for s in body_wo_doc(fn) if not (isinstance(s, ast.If) and ast.unparse(s.test) == "nnodes is None")]
+    env = {"curve": ("curve", "Seg"), "expx": ("expx", "Nat"), "expy": ("expy", "Nat"), "nnodes": ("nnodes", "Nat")}
+    lines = []
+
+    def lst(e):
+        """list-valued expression -> (lean, elem type)"""
+        src = ast.unparse(e)
+        if isinstance(e, ast.Name) and e.id in env and env[e.id][1] in ("ListRat", "ListPt"):
+            return env[e.id]
+        if src == "Math.open_linspace(nnodes)":
+            return "(Gen.openLinspace nnodes)", "ListRat"
+        if src.endswith("open_newton_cotes(nnodes)"):
+            return "(openWeights nnodes)", "ListRat"
+        if isinstance(e, ast.Call) and isinstance(e.func, ast.Name) and e.func.id in env and env[e.func.id][1] == "Seg" and len(e.args) == 1:
+            a, ta = lst(e.args[0])
+            if ta == "ListRat":
+                return f"({a}.map (evalSeg {env[e.func.id][0]}))", "ListPt"
+        if isinstance(e, ast.Call) and isinstance(e.func, ast.Name) and e.func.id in ("tuple", "list") and len(e.args) == 1:
+            g = e.args[0]
+            if isinstance(g, (ast.GeneratorExp, ast.ListComp)) and len(g.generators) == 1 and not g.generators[0].ifs and isinstance(g.generators[0].target, ast.Name):
+                it, tit = lst(g.generators[0].iter)
+                v = g.generators[0].target.id
+                cx = Cx(fname, {v: (v, "Pt" if tit == "ListPt" else "Rat"), "expx": ("expx", "Nat"), "expy": ("expy", "Nat")}, "Rat")
+                b, tb = num(g.elt, cx, "Rat")
+                return f"({it}.map fun {v} => {cast(b, tb, 'Rat', e, cx)})", "ListRat"
+            # tuple(map(np.prod, zip(a, b, c)))
+            if isinstance(g, ast.Call) and ast.unparse(g.func) == "map" and len(g.args) == 2 and ast.unparse(g.args[0]) in ("np.prod", "math.prod") \
+                    and isinstance(g.args[1], ast.Call) and ast.unparse(g.args[1].func) == "zip":
+                parts = [lst(a) for a in g.args[1].args]
+                if len(parts) == 3 and all(t == "ListRat" for _, t in parts):
+                    (a, _), (b, _), (c, _) = parts
+                    return f"((List.zip {a} (List.zip {b} {c})).map fun abc => abc.1 * abc.2.1 * abc.2.2)", "ListRat"
+        raise Unsupported(f"unsupported list expression {src[:60]} at {where(e, fname)}")
+
+    for st in body:
+        if isinstance(st, ast.Assign) and len(st.targets) == 1 and isinstance(st.targets[0], ast.Name):
+            nm, src = st.targets[0].id, ast.unparse(st.value)
+            if src == "curve.derivate()":
+                env[nm] = (nm, "Seg")
+                lines.append(f"  let {nm} : Seg := derivSeg curve")
+                continue
+            v, t = lst(st.value)
+            env[nm] = (nm, t)
+            lines.append(f"  let {nm} : List {'Pt' if t == 'ListPt' else 'Rat'} := {v}")
+            continue
+        if isinstance(st, ast.Return):
+            r = st.value
+            if isinstance(r, ast.Call) and ast.unparse(r.func) == "np.inner" and len(r.args) == 2:
+                (a, ta), (b, tb) = lst(r.args[0]), lst(r.args[1])
+                if ta == tb == "ListRat":
+                    lines.append(f"  ((List.zip {a} {b}).map fun wf => wf.1 * wf.2).sum")
+                    return "def vertical (curve : Seg) (expx expy nnodes : Nat) : Rat :=\n" + "\n".join(lines) + "\n"
+            raise Unsupported(f"unsupported return {ast.unparse(r)[:60]} at {where(st, fname)}")
+        raise Unsupported(f"unsupported statement {type(st).__name__} at {where(st, fname)}")
+    raise Unsupported("IntegratePlanar.vertical has no return")
+
+
+HEADER2 = "/- GENERATED by harness/translate_arith.py from /repo/src/shapepy — do not edit; regenerated on every run -/\n"
+
+
+def regenerate_integrals(srcdir):
+    out = [HEADER2, "import ShapeVerif.Model.Quadrature\nimport ShapeVerif.Gen.Arith\nset_option linter.unusedVariables false\n\nnamespace ShapeVerif.Gen\nopen ShapeVerif\n\n"]
+    msgs = []
+    try:
+        out.append("/-- `IntegratePlanar.vertical(curve, expx, expy, nnodes)` -/\n" + vertical_unit(srcdir) + "\n")
+    except Unsupported as e:
+        msgs.append(f"vertical: unsupported construct: {e}")
+        out.append(f"-- vertical: NOT TRANSLATED ({e})\n\n")
+    except Exception as e:
+        msgs.append(f"vertical: translator error {e!r}")
+        out.append(f"-- vertical: NOT TRANSLATED ({e!r})\n\n")
+    out.append("end ShapeVerif.Gen\n")
+    return "".join(out), msgs
 
 
 HEADER = "/- GENERATED by harness/translate_arith.py from /repo/src/shapepy — do not edit; regenerated on every run -/\n"
